@@ -65,6 +65,8 @@ def main():
         r = sh(["git", "-C", "/repo", "worktree", "add", "--detach", wt, "HEAD"])
         assert r.returncode == 0, r.stdout
     sh(["git", "-C", wt, "checkout", "--", "."]); sh(["git", "-C", wt, "clean", "-fdq", "-e", "target"])
+    head = sh(["git", "-C", "/repo", "rev-parse", "HEAD"]).stdout.strip()
+    sh(["git", "-C", wt, "checkout", "-q", "--detach", head])
     cmds = demo_commands(d)
     rec = dict(dir=d, demo_cmds=[(f, c, k) for f, c, k in cmds])
     rec["demo_without_change"] = run_demo(wt, d, cmds)
